@@ -1,9 +1,12 @@
 package graph
 
 import (
+	"crypto/sha256"
+	"encoding/hex"
 	"encoding/json"
 	"fmt"
 	"os"
+	"sort"
 	"strconv"
 	"testing"
 
@@ -116,4 +119,65 @@ func RunPath(t *testing.T, ad Adapter, root sdk.Context) {
 	}
 	b, _ := json.Marshal(map[string]any{"trace": path, "why": "replay", "init": init})
 	out.Write(append(b, '\n'))
+}
+
+// RunWalks executes VERIF_WALKS seeded random walks over the accepted edges of the graph in
+// VERIF_EDGES on the real application and writes, per step, the operation, the real result class, a
+// digest of the COMPLETE multistore content and a digest of the events emitted so far to VERIF_TRACES
+// (ndjson).  Run in several independent processes, the files must be identical (C17).
+func RunWalks(t *testing.T, ad Adapter, root sdk.Context, dump func(sdk.Context) string) {
+	g, err := Load(os.Getenv("VERIF_EDGES"))
+	if err != nil {
+		t.Fatalf("load edges: %v", err)
+	}
+	out, err := os.Create(os.Getenv("VERIF_TRACES"))
+	if err != nil {
+		t.Fatal(err)
+	}
+	defer out.Close()
+	nWalks, maxLen := envInt("VERIF_WALKS", 20), envInt("VERIF_WALKLEN", 12)
+	seed := uint64(envInt("VERIF_SEED", 1))*2654435761 + 12345
+	next := func() uint64 { // xorshift64*: identical in every process
+		seed ^= seed >> 12
+		seed ^= seed << 25
+		seed ^= seed >> 27
+		return seed * 2685821657736338717
+	}
+	okIdx := g.okIndex()
+	for wk := 0; wk < nWalks; wk++ {
+		ctx, _ := root.CacheContext()
+		ctx = ctx.WithEventManager(sdk.NewEventManager())
+		state := g.Init
+		for step := 0; step < maxLen; step++ {
+			var cands []*Edge
+			for _, e := range g.Out[state] {
+				if e.Op.Res() == "ok" && okIdx[state][e.OpS] == e {
+					cands = append(cands, e)
+				}
+			}
+			if len(cands) == 0 {
+				break
+			}
+			sort.Slice(cands, func(i, j int) bool { return cands[i].OpS < cands[j].OpS })
+			e := cands[int(next()%uint64(len(cands)))]
+			op := Op{}
+			for k, v := range e.Op {
+				if k != "res" {
+					op[k] = v
+				}
+			}
+			var res string
+			ctx, res = ad.Apply(ctx, op)
+			evs, _ := json.Marshal(ctx.EventManager().ABCIEvents())
+			h := sha256.Sum256(evs)
+			rec := map[string]any{"walk": wk, "step": step, "op": withRes(op, res), "state": dump(ctx), "events": hex.EncodeToString(h[:8]),
+				"height": ctx.BlockHeight()}
+			b, _ := json.Marshal(rec)
+			out.Write(append(b, '\n'))
+			if res != "ok" {
+				break
+			}
+			state = e.To
+		}
+	}
 }
